@@ -9,7 +9,7 @@
    Print Assumptions, and the statements that are not proved (Definition C05_full_...). *)
 From Coq Require Import Permutation.
 From SV Require Import Base.Prelude Model.Mailbox Proof.MailboxFacts Proof.MailboxProof Proof.MailboxInOrder
-  Proof.MailboxTermination.
+  Proof.MailboxTermination Model.MailboxDivider Proof.MailboxDividerProof.
 Local Open Scope nat_scope.
 
 (* Every subscriber's delivered sequence is a prefix of the sent messages in number order with futures
@@ -104,6 +104,39 @@ Theorem C05_mailbox_terminates :
 Proof. exact schedules_bounded. Qed.
 Print Assumptions C05_mailbox_terminates.
 
+(* divide_outputs feeding several mailboxes (Model/MailboxDivider.v; every run projects, mailbox by
+   mailbox, onto a run of the single-mailbox LTS): each subscriber of each target mailbox receives a
+   prefix of that mailbox's components of the dicts, in order, and all of them once it has finished.
+   For all schedules, any number of mailboxes and subscribers, lazy or eager, any flow-freely set. *)
+Theorem C05_divider_delivery_safe :
+  forall (dc : dconfig) (subs : list (list bool)) (comps : list (list msg)) (ndicts : nat)
+         (sched : list dtid) (ds : dstate) (j : nat) (c : state) (ms : list msg),
+    drun dc (dinit dc subs comps ndicts) sched = Some ds ->
+    nth_error (d_mbs ds) j = Some c -> nth_error comps j = Some ms ->
+    (forall m, In m ms -> is_stop m = false) ->
+    forall i r, nth_error (rds c) i = Some r ->
+      is_prefix (r_log r) (vals ms) /\ (r_pc r = RDone -> r_log r = vals ms).
+Proof. exact divider_delivery_safe. Qed.
+Print Assumptions C05_divider_delivery_safe.
+
+(* ... and every target mailbox of a divider respects its capacity *)
+Theorem C05_divider_capacity :
+  forall (dc : dconfig) (subs : list (list bool)) (comps : list (list msg)) (ndicts : nat)
+         (sched : list dtid) (ds : dstate) (j : nat) (c : state) (cap : nat),
+    drun dc (dinit dc subs comps ndicts) sched = Some ds ->
+    nth_error (d_mbs ds) j = Some c -> dc_cap dc = Some cap -> length (box c) <= cap.
+Proof. exact divider_capacity. Qed.
+Print Assumptions C05_divider_capacity.
+
+(* ... and has no lost wake-up *)
+Theorem C05_divider_no_lost_wakeup :
+  forall (dc : dconfig) (subs : list (list bool)) (comps : list (list msg)) (ndicts : nat)
+         (sched : list dtid) (ds : dstate) (j : nat) (c : state),
+    drun dc (dinit dc subs comps ndicts) sched = Some ds ->
+    nth_error (d_mbs ds) j = Some c -> W (cfg_of dc j) c.
+Proof. exact divider_no_lost_wakeup. Qed.
+Print Assumptions C05_divider_no_lost_wakeup.
+
 (* ---------------- stated, not proved ---------------- *)
 
 (* Explicit numbering: delivery safety and deadlock freedom when the source numbers its messages by a
@@ -130,5 +163,17 @@ Definition C05_full_mailbox_explicit_numbering : Prop :=
       ((exists t, enabled st t = true) \/ all_terminal st = true) /\
       (all_terminal st = true -> forall i r, nth_error (rds st) i = Some r -> r_pc r = RDone).
 
-(* divide_outputs feeding several mailboxes is not modelled in Coq: it is exercised on the implementation
-   by the controlled scheduler only (harness/props/c05.py, unit "divider"); see design_notes/C05.md. *)
+(* Deadlock freedom of the divider system is not proved: the divider serves its mailboxes in a fixed order,
+   which restricts when the sender steps of each mailbox can happen, so it does not follow from the
+   single-mailbox theorem.  The model's complete reachable state graphs are checked to be deadlock-free
+   for the configurations the correspondence enumerates, and the implementation is explored. *)
+Definition C05_full_divider_deadlock_free : Prop :=
+  forall (dc : dconfig) (subs : list (list bool)) (comps : list (list msg)) (ndicts : nat),
+    subs <> [] -> length comps = length subs -> length (dc_ff dc) = length subs ->
+    (forall dr, In dr subs -> dr <> []) ->
+    (forall ms, In ms comps -> length ms = ndicts /\ forall m, In m ms -> exists v, m = Plain v) ->
+    (forall c, dc_cap dc = Some c -> 1 <= c) ->
+    (forall j dr, nth_error subs j = Some dr -> gated dc j = true -> In true dr) ->
+    forall (sched : list dtid) (ds : dstate),
+      drun dc (dinit dc subs comps ndicts) sched = Some ds ->
+      (exists t, denabled ds t = true) \/ d_all_terminal ds = true.
